@@ -63,11 +63,14 @@ fn run_store_behaviour(b: usize, beh: &Value, out: &mut Vec<String>) {
             }
             "list" => {
                 let limit = o["limit"].as_u64().unwrap() as usize;
-                let l = store.addresses(limit + (64 - k));
+                let (l, panicked) = match catch(|| store.addresses(limit + (64 - k))) {
+                    Ok(l) => (l, false),
+                    Err(_) => (Vec::new(), true),
+                };
                 let ret: Vec<String> = l.iter().filter_map(|a| names.get(a).cloned()).collect();
                 // fillers must come first (they have the highest score); report position faithfully
                 let fillers_first = l.iter().take(64 - k).all(|a| !names.contains_key(a));
-                out.push(json!({"e": "list", "limit": limit, "ret": ret, "fillers_first": fillers_first}).to_string());
+                out.push(json!({"e": "list", "limit": limit, "ret": ret, "fillers_first": fillers_first, "panic": panicked}).to_string());
             }
             other => panic!("op {other}"),
         }
@@ -93,9 +96,12 @@ fn run_store_random(b: usize, rng: &mut StdRng, len: usize, out: &mut Vec<String
             out.push(json!({"e": "insert", "a": name, "score": score, "global": global, "panic": r.is_err(), "post": store_dump(&store, &names)}).to_string());
         } else {
             let limit = [0usize, 1, 8, 63, 64, 65, 1000][rng.gen_range(0..7)];
-            let l = store.addresses(limit);
+            let (l, panicked) = match catch(|| store.addresses(limit)) {
+                Ok(l) => (l, false),
+                Err(_) => (Vec::new(), true),
+            };
             let ret: Vec<String> = l.iter().map(|a| names.get(a).cloned().unwrap_or_else(|| a.to_string())).collect();
-            out.push(json!({"e": "list", "limit": limit, "ret": ret, "fillers_first": true}).to_string());
+            out.push(json!({"e": "list", "limit": limit, "ret": ret, "fillers_first": true, "panic": panicked}).to_string());
         }
     }
 }
@@ -347,19 +353,30 @@ fn main() {
         b += 1;
     }
     let mut shapes = 0;
+    // a panic of the code under test inside a manager-level round is data: the round ends with a
+    // `panic` event that the trace specification rejects
+    let mut panics = 0;
+    let mut guarded = |what: &str, lines: &mut Vec<String>, f: &mut dyn FnMut(&mut Vec<String>)| {
+        if let Err(msg) = catch(|| f(lines)) {
+            panics += 1;
+            lines.push(json!({"e": "panic", "where": what, "msg": msg}).to_string());
+        }
+    };
     for _ in 0..args.u64("filter", 0) {
-        shapes += run_filter(b, &mut rng, args.u64("per-class", 3) as usize, &mut lines);
+        let per = args.u64("per-class", 3) as usize;
+        guarded("filter", &mut lines, &mut |lines| shapes += run_filter(b, &mut rng, per, lines));
         b += 1;
     }
     for _ in 0..args.u64("dial", 0) {
-        run_dial(b, &mut rng, &mut lines);
+        guarded("dial", &mut lines, &mut |lines| run_dial(b, &mut rng, lines));
         b += 1;
     }
     for _ in 0..args.u64("dial2", 0) {
-        run_dial_two(b, &mut rng, &mut lines);
+        guarded("dial2", &mut lines, &mut |lines| run_dial_two(b, &mut rng, lines));
         b += 1;
     }
-    let events = lines.len() - b;
+    let b = b;
+    let events = lines.len().saturating_sub(b);
     write_lines(&out, &lines);
     println!("SUMMARY {}", json!({"behaviours": b, "tlc_behaviours": tlc_behaviours, "events": events, "shape_instances": shapes}));
 }
